@@ -10,8 +10,8 @@ from .facts import AnchorError
 MG = "chess_movegen::"
 KEY = MG + "Board::move_unchecked_into"
 XOR = MG + "Board::xor"
-REMOVE_SQ = MG + "castle_rights::CastleRights::remove_for_sq"
-OPAQUE = {XOR, MG + "Board::king_sq", MG + "raw::RawBoard::piece_of_unchecked", MG + "raw::RawBoard::piece_of", REMOVE_SQ, MG + "Board::enpassant_pos",
+RIGHTS_TABLE = MG + "castle_rights::CASTLE_RIGHTS_PER_SQ"
+OPAQUE = {XOR, MG + "Board::king_sq", MG + "raw::RawBoard::piece_of_unchecked", MG + "raw::RawBoard::piece_of", MG + "Board::enpassant_pos",
           "chess_bitboard::pos::Pos::new", "chess_bitboard::pos::Pos::file", "chess_bitboard::pos::Pos::rank", "chess_bitboard::pos::File::side",
           "chess_bitboard::piece::PromotionPiece::to_piece", "chess_bitboard::color::Color::enpassant_pawn_rank"}
 _CACHE = {}
@@ -45,13 +45,10 @@ def analyse(P):
             raise AnchorError(f"{KEY}: expected exactly one slider phase (a loop calling chess_lookup::between, or one call handing it to a helper/closure), found loops {sl}, calls {sorted(stop_terms)}")
     eng = T.Engine(P, opaque=OPAQUE)
     eng.stop_terms = set(stop_terms)
-    eng.trace_calls = {XOR, REMOVE_SQ}
+    eng.trace_calls = {XOR}
     xm = T.mod_fields(P, XOR, 0, opaque={"<chess_bitboard::BitBoardIter as core::iter::traits::iterator::Iterator>::next"})
     if xm is not None:
         eng.mod_summaries[XOR] = (0, MG + "Board", xm)
-    rm = T.mod_fields(P, REMOVE_SQ, 0)
-    if rm is not None:
-        eng.mod_summaries[REMOVE_SQ] = (0, MG + "castle_rights::CastleRights", rm)
     leaves = eng.region(KEY, 0, {sl[0]} if sl else set())
     slf, mv, out = ("obj", ("param", 0, "self")), ("param", 1, "a1"), ("param", 2, "a2")
     piece_adt = P.find_adt("piece::Piece", "chess_bitboard")
@@ -117,12 +114,42 @@ def analyse(P):
             p.other = getattr(p, "other", []) + [(t, v)]
         final = eng.freeze(lf.state, lf.ext.get(out, ("obj", out)))
         p.final = final
+        p.rights = rights_of(P, slf, final)
         p.calls = [tr for tr in lf.trace if tr[0] == "call"]
         p.eng = eng
         paths.append(p)
-    res = {"mod_xor": xm, "mod_remove_for_sq": rm, "paths": paths, "engine": eng, "loop": (sl[0] if sl else None), "panics": [lf for lf in leaves if lf.ret[0] == "panic"], "piece_discr": pd}
+    res = {"mod_xor": xm, "paths": paths, "engine": eng, "loop": (sl[0] if sl else None), "panics": [lf for lf in leaves if lf.ret[0] == "panic"], "piece_discr": pd}
     _CACHE[ck] = res
     return res
+
+
+def rights_of(P, slf, final):
+    """How the castling rights of the successor are derived from the mover's, read off the final value of the field (whatever helper - a `&mut self`
+    method, a by-value method, or code written in place - did it): the conjuncts of `rights.0`, as ('base',) for the mover's own rights,
+    ('mask', colour index term, square term) for a read of the per-square table, ('other', term) for anything else."""
+    names = [f["name"] for f in P.adt(MG + "Board")["variants"][0]["fields"]]
+    try:
+        cr = T.get_path(final, (("f", names.index("castle_rights"), "castle_rights", None),))
+        w = T.get_path(cr, (("f", 0, "0", None),))
+    except Exception:
+        return [("other", ("unreadable",))]
+    parts, work = [], [w]
+    while work:
+        x = work.pop()
+        if x[0] == "bin" and x[1] == "BitAnd":
+            work += [x[2], x[3]]
+        else:
+            parts.append(x)
+    out = []
+    for x in parts:
+        if x == ("field", ("field", slf, "castle_rights"), "0"):
+            out.append(("base",))
+        elif (x[0] == "field" and x[2] in ("0", 0) and x[1][0] == "index" and x[1][1][0] == "index" and x[1][1][1] == ("obj", ("static", RIGHTS_TABLE))):
+            strip = lambda i: i[2] if i[0] == "cast" else i
+            out.append(("mask", strip(x[1][1][2]), strip(x[1][2])))
+        else:
+            out.append(("other", x))
+    return out
 
 
 def _sub(t):
